@@ -318,6 +318,7 @@ func roamCase(e *core.Env, ci int, S, batch string) {
 		return
 	}
 	v6 := netip.MustParseAddrPort(fmt.Sprintf("[::1]:%d", ports[0]))
+	roamedAt := len(p.Got())
 	ask(v6max, v6)
 	if !svx.Poll(30*time.Second, func() bool { return got(v6max) }) {
 		viol("fitting_reply_dropped", "after the client moved to IPv6 a reply of %d bytes that fits the IPv6 path was not delivered", v6max)
@@ -329,7 +330,11 @@ func roamCase(e *core.Env, ci int, S, batch string) {
 		viol("datagram_or_reply_lost", "marker reply after roaming did not arrive")
 		return
 	}
-	for _, d := range p.Got() {
+	for di, d := range p.Got() {
+		if di >= roamedAt && d.Via != p.Local() {
+			viol("reply_to_stale_client_address", "the client moved to %s; a reply to a datagram it sent from there was delivered to its previous address %s", p.Local(), d.Via)
+			return
+		}
 		if d.Raw.Addr().Is6() && !d.Raw.Addr().Is4In6() && d.RawLen > 1500-48 {
 			viol("mtu_exceeded", "after the client moved to an IPv6 address the relay sent it a %d-byte packet; the IPv6 path allows %d", d.RawLen, 1500-48)
 			return
@@ -501,6 +506,33 @@ func relayCase(e *core.Env, ci int, r *core.RNG, S, C, batch string) {
 		peers[s] = p
 	}
 	feats := map[string]bool{}
+	serverAP := netip.MustParseAddrPort(fmt.Sprintf("127.0.0.1:%d", w.portA))
+	garbageSent := 0
+	// unparsable on purpose: for the unauthenticated protocols random bytes could happen to parse as a genuine
+	// datagram (which legitimately starts a session): invalid ATYP / non-zero FRAG
+	mkGarbage := func() []byte {
+		g := r.Bytes(r.Pick(1, 15, 16, 31, 32, 48, 200))
+		switch {
+		case S == "none":
+			g[0] = byte(r.Pick(0, 2, 5, 0x7f, 0xff))
+		case strings.HasPrefix(S, "socks5"):
+			if len(g) < 3 {
+				g = append(g, 1, 1, 1)
+			}
+			g[2] = byte(r.Pick(1, 0x80, 0xff))
+		}
+		return g
+	}
+	// for some clients the very first datagram the relay sees from their address is one it cannot parse: that must
+	// neither start anything nor stand in the way of the genuine datagrams that follow from the same address
+	for _, p := range peers {
+		if r.Chance(1, 2) {
+			p.SendRaw(serverAP, mkGarbage())
+			garbageSent++
+			feats["garbage-first"] = true
+		}
+	}
+	rebindAt, rebound := 0, false
 	// expected: per (sess,seq) intended target tag
 	type sent struct {
 		sess, seq int
@@ -512,8 +544,6 @@ func relayCase(e *core.Env, ci int, r *core.RNG, S, C, batch string) {
 	startedBefore := w.inst.CountLogs("relay started")
 	garbageSrc, _ := net.ListenUDP("udp", &net.UDPAddr{IP: net.IPv4(127, 0, 0, 1)})
 	defer garbageSrc.Close()
-	serverAP := netip.MustParseAddrPort(fmt.Sprintf("127.0.0.1:%d", w.portA))
-	garbageSent := 0
 	for round := 0; round < rounds; round++ {
 		// every session sends one datagram (all in flight at once => concurrent sessions / resolutions), then we wait for all replies
 		var batchSent []sent
@@ -530,20 +560,8 @@ func relayCase(e *core.Env, ci int, r *core.RNG, S, C, batch string) {
 			}
 			batchSent = append(batchSent, sent{s, round, tk, n})
 			if r.Chance(1, 3) {
-				// garbage to the relay's listener from a foreign socket. For the unauthenticated protocols random bytes
-				// could happen to parse as a genuine datagram (which legitimately starts a session), so the garbage is
-				// made unparsable on purpose: invalid ATYP / non-zero FRAG.
-				g := r.Bytes(r.Pick(1, 15, 16, 31, 32, 48, 200))
-				switch {
-				case S == "none":
-					g[0] = byte(r.Pick(0, 2, 5, 0x7f, 0xff))
-				case strings.HasPrefix(S, "socks5"):
-					if len(g) < 3 {
-						g = append(g, 1, 1, 1)
-					}
-					g[2] = byte(r.Pick(1, 0x80, 0xff))
-				}
-				garbageSrc.WriteToUDPAddrPort(g, serverAP)
+				// garbage to the relay's listener from a foreign socket
+				garbageSrc.WriteToUDPAddrPort(mkGarbage(), serverAP)
 				garbageSent++
 				feats["garbage"] = true
 			}
@@ -569,8 +587,11 @@ func relayCase(e *core.Env, ci int, r *core.RNG, S, C, batch string) {
 		}
 		// SS2022: move one session to a new socket mid-way; replies must follow the latest address
 		if strings.HasPrefix(S, "ss") && round == rounds/2 {
+			// closed loop: every reply to what the old address sent has arrived by now
+			rebindAt = len(peers[0].Got())
 			if err := peers[0].Rebind("127.0.0.1"); err == nil {
 				feats["rebind"] = true
+				rebound = true
 			}
 		}
 	}
@@ -633,7 +654,7 @@ func relayCase(e *core.Env, ci int, r *core.RNG, S, C, batch string) {
 	// ---- replies at the clients ----
 	for s, p := range peers {
 		seqs := map[int]bool{}
-		for _, d := range p.Got() {
+		for di, d := range p.Got() {
 			i := bytes.IndexByte(d.Payload, '|')
 			if i < 0 {
 				w.viol("reply_corrupted", "client %d received a reply without target tag", s)
@@ -651,6 +672,10 @@ func relayCase(e *core.Env, ci int, r *core.RNG, S, C, batch string) {
 			}
 			if seqs[seq] {
 				w.viol("reply_duplicated", "reply seq %d delivered twice to client %d", seq, s)
+				return
+			}
+			if s == 0 && rebound && di >= rebindAt && d.Via != p.Local() {
+				w.viol("reply_to_stale_client_address", "client 0 moved to %s; the reply to a datagram it sent from there (seq %d) was delivered to its previous address %s", p.Local(), seq, d.Via)
 				return
 			}
 			seqs[seq] = true
